@@ -316,7 +316,13 @@ class CrashRun:
             disk, _ = m.call("fresh-reader",
                              lambda: xyz.load_ds(fspec.data_name, engine=fspec.engine),
                              oracle="load-after-recovery-raised")
-            sub = disk.sel({a: list(v) for a, v in sw.axes(True)}) if self.pre_ds is not None else disk
+            try:
+                sub = disk.sel({a: list(v) for a, v in sw.axes(True)}) \
+                    if self.pre_ds is not None else disk
+            except KeyError as e:
+                raise Violation("recovered-on-disk/coords-absent",
+                                "{}: the crop's coordinates are not in the data file after "
+                                "recovery: {}".format(tag, e))
             check_dataset(sub, sw, m.sort_combos, None, kind, "recovered-on-disk")
         if self.role == "sampler":
             approx = fspec.engine == "csv"
